@@ -93,6 +93,9 @@ type Exec struct {
 	condWaits  int
 	records    map[string]Value
 	loopCuts   map[*ssa.Function]*loopCut
+
+	allocWatch  int      // >0: inside a vxAllocs region
+	allocEvents []string // heap-allocation sites executed inside regions on this path
 }
 
 type goRec struct {
@@ -111,6 +114,9 @@ type guardRule struct {
 
 func (e *Exec) fail(kind, label string, pos token.Pos, cond *Term) {
 	// cond: the violated condition's negation is satisfiable under pc (already established)
+	if len(e.allocEvents) > 0 {
+		label += " [heap allocations at: " + strings.Join(e.allocEvents, "; ") + "]"
+	}
 	v := Violation{Kind: kind, Label: label, Pos: e.eng.pos(pos), Path: append([]int{}, e.dec...)}
 	if cond != nil {
 		v.Values = e.extractModel(cond)
@@ -427,6 +433,9 @@ func (e *Exec) callFunc(fn *ssa.Function, args []Value, free []Value, pos token.
 			// models with side effects (hash state, mutexes, pools, UF applications, ...) must not run speculatively
 			panic(specAbort{"intrinsic with side effects"})
 		}
+		if e.allocWatch > 0 && allocatingCall(name) {
+			e.allocEvent(e.eng.pos(pos) + " call of " + name)
+		}
 		if r := h(e, fn, args, pos); r != Value(notHandled) {
 			return r
 		}
@@ -611,6 +620,9 @@ func (e *Exec) doPanic(f *frame, x *ssa.Panic) {
 
 func (e *Exec) step(f *frame, in ssa.Instruction) {
 	_ = e.tb
+	if e.allocWatch > 0 {
+		e.allocInstr(in)
+	}
 	switch x := in.(type) {
 	case *ssa.DebugRef:
 	case *ssa.Alloc:
@@ -1417,6 +1429,36 @@ func roundupsize(n uint64) uint64 {
 	return (n + 8191) &^ 8191
 }
 
+// growCapTerm: growCap for a concrete old capacity and a symbolic new length (byte elements).
+func (e *Exec) growCapTerm(oldCap uint64, need *Term) *Term {
+	tb := e.tb
+	// candidate capacities before rounding
+	var nc *Term
+	double := tb.K(64, 2*oldCap)
+	if oldCap < 256 {
+		nc = tb.Ite(tb.Cmp(OUlt, double, need), need, double)
+	} else {
+		// newcap += (newcap + 768) >> 2 until >= need; need <= 2*oldCap here, so a few steps suffice
+		c := oldCap
+		var steps []uint64
+		for c < 2*oldCap {
+			c += (c + 768) >> 2
+			steps = append(steps, c)
+		}
+		var chain *Term = tb.K(64, steps[len(steps)-1])
+		for i := len(steps) - 2; i >= 0; i-- {
+			chain = tb.Ite(tb.Cmp(OUle, need, tb.K(64, steps[i])), tb.K(64, steps[i]), chain)
+		}
+		nc = tb.Ite(tb.Cmp(OUlt, double, need), need, chain)
+	}
+	// roundupsize: size classes up to 32 KiB, whole pages above
+	var r *Term = tb.Bin(OAnd, tb.Bin(OAdd, nc, tb.K(64, 8191)), tb.K(64, ^uint64(8191)))
+	for i := len(sizeClasses) - 1; i >= 1; i-- {
+		r = tb.Ite(tb.Cmp(OUle, nc, tb.K(64, sizeClasses[i])), tb.K(64, sizeClasses[i]), r)
+	}
+	return r
+}
+
 // growCap mimics runtime.growslice's capacity rule (go1.23) for elemSize bytes.
 func growCap(oldCap, newLen, elemSize uint64) uint64 {
 	newcap := oldCap
@@ -1469,11 +1511,20 @@ func (e *Exec) appendOp(dv, sv Value, t types.Type, pos token.Pos) Value {
 			}
 			return &Slice{b: d.b, c: d.c, cpath: d.cpath, off: d.off, len: need, cap: d.cap, elem: et}
 		}
+		e.allocEvent(e.eng.pos(pos) + " append beyond capacity")
 		var ncap *Term
 		max := -1
 		if d.cap.isConst() && need.isConst() {
 			ncap = tb.K(64, growCap(d.cap.k, need.k, 1))
 			max = int(ncap.k)
+		} else if e.eng.esc != nil && (d.isNil() || d.cap.isConst()) {
+			// allocation checks (C20): the runtime's growth rule as a term of the symbolic new length,
+			// so that capacity-boundary counterexamples are the ones the real runtime produces
+			oc := uint64(0)
+			if !d.isNil() {
+				oc = d.cap.k
+			}
+			ncap = e.growCapTerm(oc, need)
 		} else {
 			ncap = tb.Fresh("cap", 64)
 			e.assume(tb.And(tb.Cmp(OSle, need, ncap), tb.Cmp(OSle, ncap, tb.Bin(OAdd, tb.Bin(OAdd, need, need), tb.K(64, 64)))))
@@ -1493,6 +1544,7 @@ func (e *Exec) appendOp(dv, sv Value, t types.Type, pos token.Pos) Value {
 	nl := d.len.k + s.len.k
 	res := d
 	if d.c == nil || nl > d.cap.k {
+		e.allocEvent(e.eng.pos(pos) + " append beyond capacity")
 		nc := growCap(d.cap.k, nl, e.eng.sizeof(et))
 		arr := make(ArrV, nc)
 		z := e.zero(et)
